@@ -28,6 +28,7 @@ def case(draw, big=False):
     f = draw(freq_grid(3, 30, allow_zero=True, fmax=4.0))
     nf = len(f)
     e = draw(st.lists(st.one_of(fl(0.0, 5.0), st.just(0.0)), min_size=nf, max_size=nf))
+    e = [0.0 if x < 1e-100 else x for x in e]          # no subnormal-range densities (amplitudes underflow to zero)
     if sum(e) == 0:
         e[nf // 2] = 1.0
     c = {"two_d": two_d, "f": f, "e": e,
@@ -41,8 +42,10 @@ def case(draw, big=False):
     if two_d:
         nd = draw(st.integers(8, 72))
         c["nd"] = nd
-        c["bin"] = draw(st.integers(0, nd - 1))
-        c["t0"] = draw(st.sampled_from([0.0, 0.0, 2.5, 7.0]))
+        # any bin, with the two bins next to the wrap of the direction axis over-represented
+        c["bin"] = draw(st.one_of(st.integers(0, nd - 1), st.sampled_from([0, nd - 1])))
+        c["t0"] = draw(st.sampled_from([0.0, 0.0, 2.5, 7.0, 180.0 / nd]))
+        c["labels"] = draw(st.sampled_from(["0_360", "0_360", "pm180"]))
     return c
 
 
@@ -54,6 +57,8 @@ def build(c, scale=1.0):
     if c["two_d"]:
         nd = c["nd"]
         d = (c["t0"] + np.arange(nd) * 360.0 / nd) % 360.0
+        if c.get("labels") == "pm180":
+            d = -180.0 + d                       # the same uniform grid labelled in [-180, 180)
         dstep = 360.0 / nd
         E = np.zeros((len(f), nd))
         E[:, c["bin"]] = e / dstep
@@ -112,7 +117,9 @@ def run(c):
         tol = 1e-12 * max(float(np.abs(ref).max()), 1e-300)
         require(np.abs(np.asarray(s2) - ref).max() <= tol * 10, "scaling_by_c_scales_series_by_sqrt_c",
                 f"component={comp} c={sc} max diff={np.abs(np.asarray(s2) - ref).max()!r}")
-    classes = ["2d" if c["two_d"] else "1d", "odd_L" if L % 2 else "even_L",
+    classes = (["energy_in_last_direction_bin_of_grid_not_starting_at_0"]
+               if c["two_d"] and c["bin"] == c["nd"] - 1 and (c["t0"] != 0.0 or c.get("labels") == "pm180") else [])
+    classes += ["2d" if c["two_d"] else "1d", "odd_L" if L % 2 else "even_L",
                "L>=600" if L >= 600 else "L<600"]
     oblique = (not c["two_d"]) or (abs(theta % 90.0) > 1e-9)
     if c["two_d"] and oblique:
